@@ -397,6 +397,7 @@ def _worker(args):
     for i in range(lo, hi):
         rng = random.Random("C16/%d/%d" % (seed, i))
         base, faults, tail = gen_history(rng)
+        common.note_inflight({"base": base, "faults": faults, "tail": tail})
         reset_globals()
         try:
             twin = run_history(S, vsc, base + tail, None)
@@ -458,8 +459,7 @@ def main():
     jobs = 16 if tier == "thorough" else 8
     per = (n + jobs - 1) // jobs
     chunks = [(seed, i, min(n, i + per)) for i in range(0, n, per)]
-    with multiprocessing.get_context("fork").Pool(len(chunks)) as pool:
-        results = pool.map(_worker, chunks)
+    results = common.pmap(_worker, chunks)
     for r in results:
         for k, v in r["counts"].items():
             ck.count(k, v)
